@@ -217,7 +217,9 @@ def shipped(ctx):
     """Recorded reference vectors of the repository, reproduced within the tests' own tolerance 2e-3."""
     import bempp_cl.api as bem
 
-    data = "/repo/test/data"
+    from bex.core import REPO
+
+    data = os.path.join(REPO, "test/data")
     try:
         grid = bem.import_grid(os.path.join(data, "fmm_grid.msh"))
     except Exception as exc:  # noqa: BLE001
